@@ -40,8 +40,54 @@ func unknownModeConsts(w *World) (fail, warn, pass int64, ok bool) {
 	return fail, warn, pass, o1 && o2 && o3
 }
 
-// noMatchIf finds the `len(matches) == 0` test on the matcher's result in the parser and the successor index of its "no match" edge.
-func (m *parserModel) noMatchIf() (*ssa.If, int, *ssa.Call) {
+// matchLenTest: the tests on the length of the matcher's result, decided over the lengths 0, 1 and "several"
+// (sampled as 2, 3, 4) with what the enclosing tests already established: an edge is the "no match" edge when only
+// length 0 takes it, the "ambiguous" edge when exactly the lengths above 1 take it. `len(m) != 1` after
+// `len(m) > 1` returned is the no-match test as much as `len(m) == 0` is.
+func (m *parserModel) matchLenTest(want func(onEdge, other [5]bool) bool) (*ssa.If, int, *ssa.Call) {
+	lenOf := func(f Fact) (*ssa.Call, int64, bool) {
+		if f.Y == nil {
+			return nil, 0, false
+		}
+		c, ok := f.X.(*ssa.Call)
+		if !ok || calleeName(c) != "builtin:len" {
+			return nil, 0, false
+		}
+		mc, ok := c.Call.Args[0].(*ssa.Call)
+		if !ok || calleeName(mc) != nMatcher {
+			return nil, 0, false
+		}
+		k, ok := constInt(f.Y)
+		return mc, k, ok
+	}
+	holds := func(op token.Token, n, k int64) bool {
+		switch op {
+		case token.EQL:
+			return n == k
+		case token.NEQ:
+			return n != k
+		case token.LSS:
+			return n < k
+		case token.LEQ:
+			return n <= k
+		case token.GTR:
+			return n > k
+		case token.GEQ:
+			return n >= k
+		}
+		return true
+	}
+	classes := func(facts []Fact, mc *ssa.Call) (set [5]bool) {
+		for n := range set {
+			set[n] = true
+			for _, f := range facts {
+				if c, k, ok := lenOf(f); ok && c == mc && !holds(f.Op, int64(n), k) {
+					set[n] = false
+				}
+			}
+		}
+		return set
+	}
 	for _, b := range m.fn.Blocks {
 		if len(b.Instrs) == 0 {
 			continue
@@ -50,31 +96,42 @@ func (m *parserModel) noMatchIf() (*ssa.If, int, *ssa.Call) {
 		if !ok {
 			continue
 		}
+		var mc *ssa.Call
 		for _, f := range condFacts(iff.Cond, true, iff) {
-			if f.Y == nil {
-				continue
+			if c, _, ok := lenOf(f); ok {
+				mc = c
 			}
-			c, ok := f.X.(*ssa.Call)
-			if !ok || calleeName(c) != "builtin:len" {
-				continue
+		}
+		if mc == nil {
+			for _, f := range condFacts(iff.Cond, false, iff) {
+				if c, _, ok := lenOf(f); ok {
+					mc = c
+				}
 			}
-			mc, ok := c.Call.Args[0].(*ssa.Call)
-			if !ok || calleeName(mc) != nMatcher {
-				continue
-			}
-			k, ok := constInt(f.Y)
-			if !ok {
-				continue
-			}
-			switch {
-			case f.Op == token.EQL && k == 0, f.Op == token.LSS && k == 1, f.Op == token.LEQ && k == 0:
-				return iff, 0, mc
-			case f.Op == token.NEQ && k == 0, f.Op == token.GTR && k == 0, f.Op == token.GEQ && k == 1:
-				return iff, 1, mc
+		}
+		if mc == nil {
+			continue
+		}
+		at := factsAt(b)
+		var sets [2][5]bool
+		for k := 0; k < 2; k++ {
+			sets[k] = classes(append(append([]Fact{}, at...), condFacts(iff.Cond, k == 0, iff)...), mc)
+		}
+		for k := 0; k < 2; k++ {
+			if want(sets[k], sets[1-k]) {
+				return iff, k, mc
 			}
 		}
 	}
 	return nil, 0, nil
+}
+
+// noMatchIf finds the test that singles out `len(matches) == 0` on the matcher's result in the parser and the successor
+// index of its "no match" edge.
+func (m *parserModel) noMatchIf() (*ssa.If, int, *ssa.Call) {
+	return m.matchLenTest(func(on, other [5]bool) bool {
+		return on == [5]bool{true, false, false, false, false} && !other[0]
+	})
 }
 
 // isUnknownAppend: in is `cursor.UnknownOptions = append(cursor.UnknownOptions, rec)` with rec a newUnknownCLIOption result.
